@@ -99,6 +99,18 @@ FACTS = {
             (["components", "schemas", "person", "properties", "home", "format"], "uri-reference"),
         ],
     },
+    "uris-built-by-concat": {
+        "files": {"main.oal":
+                  "let root = /;\nlet things = concat root /things;\nlet thing = concat things /{ 'id int };\nlet sub = concat (/a/) (/b/{ 'k str }/c);\nlet deep = concat (concat root /x) (/y?{ 'q str });\n"
+                  "res things on get -> <[{ 'self thing }]>;\nres thing on get -> <{}>;\nres sub on get -> <{}>;\nres deep on get -> <{}>;\nres root on get -> <{}>;\n"},
+        "facts": [
+            (["paths"], ("keys", ["/things", "/things/{id}", "/a/b/{k}/c", "/x/y", "/"])),
+            (["paths", "/things/{id}", "parameters"], ("params", [("path", "id", True)])),
+            (["paths", "/a/b/{k}/c", "parameters"], ("params", [("path", "k", True)])),
+            (["paths", "/x/y", "parameters"], ("params", [("query", "q", False)])),
+            (["paths", "/things", "get", "responses", "default", "content", "application/json", "schema", "items", "properties", "self", "format"], "uri-reference"),
+        ],
+    },
     "annotations-in-place": {
         "files": {"main.oal":
                   "let n = int `minimum: 1, maximum: 9, example: 5`;\nlet s = str `pattern: \"[a-z]+\", minLength: 2, maxLength: 8, format: \"slug\", enum: [ab, cd]`;\n"
@@ -578,6 +590,43 @@ def check():
                 if any(v == ("sym", "other") for v in hv) or any(e[3] == ("sym", "other") for e in st):
                     wins = True
         structural("deep_extend_value: where both sides give a plain value the extending side replaces the extended one", wins)
+    except KeyError as exn:
+        o.inconc(str(exn)[:120])
+
+    # concat: Uri::append joins two paths without doubling the separator - the trailing empty segment of the left
+    # operand is dropped exactly when there is one - and takes the parameters of the right operand
+    try:
+        fap = MC.sel("spec", "append", arg0=r"&mut .*Uri")
+        o.functions.append(mirlib.func_ref(fap, "oal-compiler"))
+        exa = mirlib.executor([MC])
+        n_pop = n_keep = 0
+        for p in exa.run(fap, arg_names=["self", "other"]):
+            if p.kind != "return":
+                continue
+            calls = list(p.calls())
+            last = [e for e in calls if e[1] in ("slice::last", "Vec::last")]
+            pops = [e for e in calls if e[1] == "Vec::pop"]
+            apps = [e for e in calls if e[1] == "Vec::append"]
+            mypath, otherpath = ("fld", ("deref", ("sym", "self")), 0), ("fld", ("sym", "other"), 0)
+            shape = len(apps) == 1 and len(pops) <= 1 and any(t == otherpath for t in ms.subterms(apps[0][2][1])) and any(t == mypath for t in ms.subterms(apps[0][2][0])) and \
+                all(any(t == mypath for t in ms.subterms(e[2][0])) for e in pops)
+            structural("Uri::append: the right operand's segments are appended to the left operand's (after at most one pop of the left)", shape)
+            if not last:
+                structural("Uri::append: the decision to drop a segment looks at the last segment of the left operand", False)
+                continue
+            seg = ms.proj(ms.proj(last[0][3], ("v", "Some"), E), ("f", 0), E)
+            empty = ("app", "UriSegment::is_empty", (seg,))
+            if pops:
+                n_pop += 1
+                L.expect_unsat("Uri::append: a segment is dropped only if it is the empty trailing one", S.pc(p.pc) + [z3.Not(S.b(empty))], on_sat)
+            else:
+                n_keep += 1
+                L.expect_unsat("Uri::append: an empty trailing segment of the left operand is always dropped (no doubled separator)", S.pc(p.pc) + [S.b(empty)], on_sat)
+            st = {e[2]: e[3] for e in p.events if e[0] == "store" and e[1] == ("sym", "self")}
+            structural("Uri::append: the result has the right operand's parameters", st.get((("f", 1),)) == ("fld", ("sym", "other"), 1))
+        mirlib.check_translator(o, exa, "Uri::append")
+        if n_pop == 0 or n_keep == 0:
+            o.inconc("Uri::append: expected a dropping and a keeping path, got %d/%d" % (n_pop, n_keep))
     except KeyError as exn:
         o.inconc(str(exn)[:120])
 
